@@ -1094,7 +1094,7 @@ class NinjaBackend(backends.Backend):
             if not compilers.is_separate_compile(src):
                 continue
             if compilers.is_llvm_ir(src):
-                o, s = self.generate_llvm_ir_compile(target, src)
+                o, s = self.generate_llvm_ir_compile(target, src, True)
             else:
                 o, s = self.generate_single_compile(target, src, True, order_deps=header_deps)
             compiled_sources.append(s)
@@ -3076,7 +3076,7 @@ https://gcc.gnu.org/bugzilla/show_bug.cgi?id=47485'''))
             return linker.get_link_debugfile_args(filename)
         return []
 
-    def generate_llvm_ir_compile(self, target: build.BuildTarget, src: FileOrString) -> T.Tuple[str, str]:
+    def generate_llvm_ir_compile(self, target: build.BuildTarget, src: FileOrString, is_generated: bool = False) -> T.Tuple[str, str]:
         compiler = get_compiler_for_source(target.compilers.values(), src)
         commands = compiler.compiler_args()
         # Compiler args for compiling this target
@@ -3103,6 +3103,11 @@ https://gcc.gnu.org/bugzilla/show_bug.cgi?id=47485'''))
             raise InvalidArguments(f'Invalid source type: {src!r}')
         # Write the Ninja build command
         compiler_name = self.get_compiler_rule_name('llvm_ir', compiler.for_machine)
+        # Create introspection information
+        if is_generated:
+            self.create_target_source_introspection(target, compiler, commands, [], [src])
+        else:
+            self.create_target_source_introspection(target, compiler, commands, [src], [])
         element = NinjaBuildElement(self.all_outputs, rel_obj, compiler_name, rel_src)
         element.add_item('ARGS', commands)
         self.add_build(element)
